@@ -78,7 +78,7 @@ impl Gen {
         self.n += 1;
         let prop = self.prop.clone();
         match prop.as_str() {
-            "C01" | "C08" | "C09" | "C10" | "C11" | "C12" | "C13" | "C15" | "C18" => {
+            "C01" | "C08" | "C09" | "C10" | "C11" | "C12" | "C15" | "C18" if !(prop == "C10" && self.n % 2 == 0) => {
                 let mut b = packet_bytes(rng);
                 if rng.chance(1, 4) {
                     // compound: concatenate a few
@@ -87,6 +87,30 @@ impl Gen {
                     }
                 }
                 Some(J::obj(vec![("prop", J::s(&prop)), ("kind", J::s("bytes")), ("bytes", J::s(&hex(&b)))]))
+            }
+            "C19" => match self.n % 3 {
+                0 => Some(J::obj(vec![("prop", J::s(&prop)), ("kind", J::s("custom")), ("padding", J::n(pad(rng))), ("ssrc", J::n(u32v(rng)))])),
+                1 => {
+                    let c = leaf_cfg(rng, 5);
+                    Some(J::obj(vec![("prop", J::s(&prop)), ("kind", J::s("cfg")), ("cfg", c.to_json())]))
+                }
+                _ => {
+                    let mut b = packet_bytes(rng);
+                    if rng.chance(1, 2) && b.len() >= 2 {
+                        b[1] = *rng.pick(&[242u8, 207, 200, 250]);
+                    }
+                    Some(J::obj(vec![("prop", J::s(&prop)), ("kind", J::s("bytes")), ("bytes", J::s(&hex(&b)))]))
+                }
+            },
+            "C13" => {
+                let mut c = any_cfg(rng, "C06");
+                set_padding(&mut c, 0);
+                let n = 4 * (1 + rng.below(63)) as u8;
+                Some(J::obj(vec![("prop", J::s(&prop)), ("kind", J::s("cfg")), ("cfg", c.to_json()), ("pad", J::n(n))]))
+            }
+            "C10" if self.n % 2 == 0 => {
+                let c = any_cfg(rng, "C03");
+                Some(J::obj(vec![("prop", J::s(&prop)), ("kind", J::s("cfg")), ("cfg", c.to_json())]))
             }
             "C02" | "C03" | "C04" | "C05" | "C06" | "C07" | "C14" | "C16" | "C17" => {
                 let c = any_cfg(rng, &prop);
